@@ -443,3 +443,183 @@ Proof.
     destruct (fisdir p t), (fisdir q t); qsolve Q0'.
   Unshelve. all: apply NI; reflexivity.
 Qed.
+
+(* ------------------------------------------------------------------ one operation, drained *)
+(* [Contract.deliver_one] with the class filter of the watch and with the resulting state *)
+Definition run_one (F : option (list evbase)) (C : cfg) (full_events : bool) (w : world) (k : kst) (r : rstate) (o : op)
+  : option (world * kst * rstate * list nevent) :=
+  match apply_op w o with
+  | None => None
+  | Some w' =>
+    let k1 := kernel_op k (w_fs w) o in
+    match read_batch C (w_fs w') (r, kdrained k1, []) (k_queue k1) with
+    | Crash _ => None
+    | Done (r', k', raws) =>
+      Some (w', k', r', emit_all_f F full_events (c_recursive C) (c_root C) (content (w_fs w')) (group_batch C raws))
+    end
+  end.
+
+Lemma run_one_deliver C full w k r o :
+  option_map snd (run_one None C full w k r o) = deliver_one C full w k r o.
+Proof.
+  unfold run_one, deliver_one. destruct (apply_op w o) as [w'|]; [|reflexivity].
+  destruct (read_batch C (w_fs w') (r, kdrained (kernel_op k (w_fs w) o), []) (k_queue (kernel_op k (w_fs w) o)))
+    as [[[r' k'] raws]|]; [|reflexivity].
+  cbn [option_map snd]. now rewrite emit_all_f_none.
+Qed.
+
+Lemma group_go_with_mask C M b : forall g, group_go (with_mask C M) b g = group_go C b g.
+Proof.
+  induction b as [|e b IH]; intros g; [reflexivity|]. cbn [group_go].
+  change (nkind_of (with_mask C M) e) with (nkind_of C e).
+  assert (P : forall c t g0, pair_in_batch (with_mask C M) c t g0 = pair_in_batch C c t g0).
+  { intros c t g0. induction g0 as [|it g0 IHg]; [reflexivity|]. cbn [pair_in_batch].
+    change (is_from_raw (with_mask C M) c it) with (is_from_raw C c it). now rewrite IHg. }
+  destruct (nkind_of C e); rewrite ?P, ?IH; try reflexivity.
+  destruct (pair_in_batch C cookie e g); rewrite ?IH; reflexivity.
+Qed.
+
+Lemma group_batch_with_mask C M b : group_batch (with_mask C M) b = group_batch C b.
+Proof.
+  unfold group_batch. rewrite group_go_with_mask. apply filter_ext. intros it.
+  destruct it; reflexivity.
+Qed.
+
+(* the structural events reach the filtered watch *)
+Definition visible (F : option (list evbase)) (recursive : bool) : Prop :=
+  flag_in IN_MOVED_FROM (kmask F recursive) = true /\
+  (recursive = true -> flag_in IN_CREATE (kmask F recursive) = true).
+
+Lemma visible_recursive F : visible F true.
+Proof.
+  split; [|intros _]; rewrite flag_in_kmask by reflexivity; apply table_lemma; simpl; tauto.
+Qed.
+
+Section Step.
+  Variable F : option (list evbase).
+  Variable C : cfg.
+  Let rec := c_recursive C.
+  Let M' := kmask F rec.
+  Let C' := with_mask C M'.
+  Hypothesis HM : c_mask C = WATCHDOG_ALL.
+  Hypothesis Hvis : visible F rec.
+
+  Lemma whole_kmask : flag_in IN_MOVED_FROM M' = flag_in IN_MOVED_TO M'.
+  Proof. unfold M'. rewrite !flag_in_kmask by reflexivity. apply mask_move_whole. Qed.
+
+  Lemma structural_kept m : structural rec m = true -> kkeep M' m = true.
+  Proof.
+    unfold structural, kkeep. intros H. destruct Hvis as [V1 V2].
+    destruct (Emitter.is_ignored m); [reflexivity|]. cbn [orb].
+    apply orb_true_iff in H as [H|H].
+    - rewrite orb_false_r in H. apply orb_true_iff in H as [H|H].
+      + now rewrite (has_flag_kept M' m IN_MOVED_FROM H V1).
+      + pose proof whole_kmask as W. unfold M' in W. rewrite W in V1.
+        now rewrite (has_flag_kept M' m IN_MOVED_TO H V1).
+    - apply andb_true_iff in H as [H H3]. apply andb_true_iff in H as [H1 _].
+      now rewrite (has_flag_kept M' m IN_CREATE H3 (V2 H1)).
+  Qed.
+
+  Lemma sim_kept : rec = true -> kkeep M' IN_CREATE = true /\ kkeep M' (N.lor IN_CREATE IN_ISDIR) = true.
+  Proof.
+    intros Hr. destruct Hvis as [_ V2]. specialize (V2 Hr). unfold kkeep. split.
+    - now rewrite (has_flag_kept M' IN_CREATE IN_CREATE eq_refl V2).
+    - now rewrite (has_flag_kept M' (N.lor IN_CREATE IN_ISDIR) IN_CREATE eq_refl V2).
+  Qed.
+
+  (* ONE OPERATION: the filtered watch queues the accepted part of what the unfiltered watch queues,
+     and the two worlds stay twins *)
+  Theorem transparent_step full w k k' r o w1 k1 r1 evs :
+    kw0 WATCHDOG_ALL M' k k' ->
+    run_one None C full w k r o = Some (w1, k1, r1, evs) ->
+    exists k1', run_one F C' full w k' r o = Some (w1, k1', r1, filter (acc F) evs) /\
+                kw0 WATCHDOG_ALL M' k1 k1'.
+  Proof.
+    intros [T [Q Q']] Hrun. unfold run_one in *.
+    destruct (apply_op w o) as [w'|]; [|discriminate].
+    set (kU := kernel_op k (w_fs w) o) in *. set (kF := kernel_op k' (w_fs w) o).
+    assert (Q0 : kq M' k k') by (unfold kq; rewrite Q, Q'; reflexivity).
+    destruct (kernel_op_twin WATCHDOG_ALL M' (kmask_sub F rec) (kmask_nodir F rec) k k' (w_fs w) o T Q0) as [T1 Q1].
+    fold kU kF in T1, Q1. unfold kq in Q1.
+    rewrite (kcollapse_nodup _ (NoDup_filter _ _ (kernel_op_nodup k (w_fs w) o Q))) in Q1. fold kU in Q1.
+    destruct (read_batch C (w_fs w') (r, kdrained kU, []) (k_queue kU)) as [[[r' kk] raws]|] eqn:Hrd; [|discriminate].
+    inversion Hrun; subst w1 k1 r1 evs; clear Hrun.
+    pose proof (reader_transparent C (w_fs w') (kkeep M') structural_kept sim_kept _ _ _ _ _ _ _ Hrd) as Hrt.
+    cbn [filter] in Hrt.
+    assert (K0 : kw0 WATCHDOG_ALL M' (kdrained kU) (kdrained kF)).
+    { split; [|split; reflexivity]. destruct T1 as [a b c d]. constructor; assumption. }
+    pose proof (read_batch_twin C WATCHDOG_ALL M' HM (w_fs w')
+                  (filter (fun e => kkeep M' (k_mask e)) (k_queue kU)) r (kdrained kU) (kdrained kF) [] K0) as Htw.
+    rewrite Hrt in Htw. fold C' in Htw. rewrite Q1.
+    destruct (read_batch C' (w_fs w') (r, kdrained kF, []) (filter (fun e => kkeep M' (k_mask e)) (k_queue kU)))
+      as [[[r2 k2] raws2]|]; [|contradiction].
+    destruct Htw as [H1 [H2 H3]]. cbn [fst snd] in *. subst r2 raws2.
+    exists k2. split; [|exact H3]. f_equal. f_equal.
+    unfold C'. rewrite group_batch_with_mask. cbn [with_mask c_recursive c_root].
+    (* the raws have kernel-shaped masks *)
+    assert (Hsh : Forall (fun x => kshaped (r_mask x)) raws).
+    { destruct (read_batch_masks _ _ _ _ _ _ _ _ _ Hrd) as [new [E Hn]]. cbn [app] in E. subst new.
+      eapply Forall_impl; [|exact Hn]. intros x [[e [He ->]]|Hx]; [|apply sim_raw_shaped; exact Hx].
+      assert (QS : qshaped kU).
+      { apply kernel_op_shaped. intros e0 He0. rewrite Q in He0. destruct He0. }
+      apply QS. exact He. }
+    rewrite (group_batch_handed C M' (kmask_events F rec) (kmask_nodir F rec) whole_kmask raws Hsh).
+    rewrite emit_all_f_none. apply emit_all_handed.
+  Qed.
+End Step.
+
+(* ------------------------------------------------------------------ histories, every operation drained *)
+(* A history of operations, each followed by one read of the whole kernel queue, grouping and the emission of
+   every item (the regime of the two-watch oracle).  An operation whose system call fails is skipped; a reader
+   crash ends the run (None).  After the emitter has stopped (the root is gone) no watch is left in the kernel
+   model, so nothing more is queued on either side. *)
+Fixpoint run_seq (F : option (list evbase)) (C : cfg) (full_events : bool) (w : world) (k : kst) (r : rstate)
+    (ops : list op) : option (list nevent) :=
+  match ops with
+  | [] => Some []
+  | o :: rest =>
+    match apply_op w o with
+    | None => run_seq F C full_events w k r rest
+    | Some _ =>
+      match run_one F C full_events w k r o with
+      | None => None
+      | Some (w1, k1, r1, evs) => option_map (app evs) (run_seq F C full_events w1 k1 r1 rest)
+      end
+    end
+  end.
+
+(* from Inotify.__init__ on the initial file system *)
+Definition run_from (F : option (list evbase)) (C : cfg) (full_events : bool) (w : world) (ops : list op)
+  : option (list nevent) :=
+  match construct C kinit (w_fs w) with
+  | None => None
+  | Some (r, k) => run_seq F C full_events w k r ops
+  end.
+
+Theorem transparent_seq F C full (HM : c_mask C = WATCHDOG_ALL) (Hvis : visible F (c_recursive C)) ops :
+  forall w k k' r evs,
+    kw0 WATCHDOG_ALL (kmask F (c_recursive C)) k k' ->
+    run_seq None C full w k r ops = Some evs ->
+    run_seq F (with_mask C (kmask F (c_recursive C))) full w k' r ops = Some (filter (acc F) evs).
+Proof.
+  induction ops as [|o ops IH]; intros w k k' r evs K H; cbn [run_seq] in *.
+  - inversion H; subst. reflexivity.
+  - destruct (apply_op w o) eqn:Ea; [|eapply IH; eassumption].
+    destruct (run_one None C full w k r o) as [[[[w1 k1] r1] e1]|] eqn:E1; [|discriminate].
+    destruct (transparent_step F C HM Hvis full w k k' r o w1 k1 r1 e1 K E1) as [k1' [E2 K1]].
+    rewrite E2.
+    destruct (run_seq None C full w1 k1 r1 ops) as [e2|] eqn:E3; [|discriminate].
+    cbn [option_map] in H. inversion H; subst evs.
+    rewrite (IH w1 k1 k1' r1 e2 K1 E3). cbn [option_map]. now rewrite filter_app.
+Qed.
+
+Theorem transparent_from F C full (HM : c_mask C = WATCHDOG_ALL) (Hvis : visible F (c_recursive C)) w ops evs :
+  run_from None C full w ops = Some evs ->
+  run_from F (with_mask C (kmask F (c_recursive C))) full w ops = Some (filter (acc F) evs).
+Proof.
+  unfold run_from. intros H.
+  pose proof (construct_twin C WATCHDOG_ALL (kmask F (c_recursive C)) HM (w_fs w)) as T.
+  destruct (construct C kinit (w_fs w)) as [[r k]|]; [|discriminate].
+  destruct (construct (with_mask C (kmask F (c_recursive C))) kinit (w_fs w)) as [[r' k']|]; [|contradiction].
+  destruct T as [<- K]. eapply transparent_seq; eassumption.
+Qed.
